@@ -16,6 +16,7 @@ from .worker import Worker, WorkerType, WorkerTerminatedError
 
 import os
 import sys
+import time
 import queue
 import logging
 import threading
@@ -31,6 +32,8 @@ class ProcessWorker(Worker):
         self._comms = Pipe()
         self._ctrl_comms = Pipe()
         self._is_child = False
+        self._message = None # the last message received from the child (its result and its final state)
+        self._comms_closed = False
         super().__init__(*args, **kwargs)
         assert not self.is_child
         self._comms.child_end.close()
@@ -74,7 +77,7 @@ class ProcessWorker(Worker):
             raise ValueError('A worker cannot wait for itself')
         if not self.is_alive():
             return True
-        self._child.join(timeout)
+        self._join(timeout)
         alive = self._child.is_alive()
         if not alive:
             self._dead = True
@@ -102,15 +105,15 @@ class ProcessWorker(Worker):
                 pass
 
             self._release_child()
-            self._child.join(timeout)
+            self._join(timeout)
             if self._child.is_alive():
                 if force:
                     self._child.terminate()
-                    self._child.join(timeout)
+                    self._join(timeout)
                     if self._child.is_alive():
                         # SIGTERM does not get through (e.g., the child is stopped), use the last resort
                         self._child.kill()
-                        self._child.join(timeout)
+                        self._join(timeout)
                     # try:
                     #     self._comms.child_end.put((False, None))
                     #     self._comms.child_end.close()
@@ -130,24 +133,47 @@ class ProcessWorker(Worker):
         if self._result is None:
             #assert not self._comms[0].empty()
             #self._comms.child_end.close()
-            message = None
-            while True:
-                try:
-                    message = self._comms.parent_end.get()
-                except queue.Empty:
-                    break
-                except Exception:
-                    # the message is there but its content cannot be recreated on this side (e.g., an exception whose class cannot
-                    # be rebuilt from its arguments, a truncated message of a killed child) - the outcome is an unreportable error
-                    logger.exception('Could not read the final message of the child')
-                    message = ((False, None), self._user_state)
+            while self._fetch_message():
+                pass
 
-            if message is None:
+            if self._message is None:
                 self._result = (False, None)
             else:
-                self._result, self._user_state = message
+                self._result, self._user_state = self._message
 
         return self._result
+
+    def _fetch_message(self):
+        ''' Read one pending message of the child, return False if there is none left (the pipe has been closed).
+        '''
+        try:
+            self._message = self._comms.parent_end.get()
+        except queue.Empty:
+            self._comms_closed = True
+            return False
+        except Exception:
+            # the message is there but its content cannot be recreated on this side (e.g., an exception whose class cannot
+            # be rebuilt from its arguments, a truncated message of a killed child) - the outcome is an unreportable error
+            logger.exception('Could not read the final message of the child')
+            self._message = ((False, None), self._user_state)
+        return True
+
+    def _join(self, timeout=None):
+        ''' Wait for the child process like ``self._child.join(timeout)`` would, but keep fetching its final message in the
+            meantime: a child sending a result which does not fit into the buffer of the pipe can only exit once
+            the parent has started reading it.
+        '''
+        deadline = None if timeout is None else time.monotonic() + timeout
+        while self._child.is_alive():
+            remaining = None if deadline is None else max(0, deadline - time.monotonic())
+            sources = [self._child.sentinel]
+            if not self._comms_closed:
+                sources.append(self._comms.parent_end)
+            ready = mp.connection.wait(sources, remaining)
+            if self._comms.parent_end in ready and self._child.sentinel not in ready:
+                self._fetch_message()
+            elif not ready:
+                break
 
     #
     # Running mechanism
